@@ -6,7 +6,9 @@ import itertools
 
 from harness.common import Failure, Spec, coq_bytes, coq_list
 
-# case = {"body": hex, "reads": [int, ...], "lens": [int, ...]}
+# case = {"msgs": [{"body": hex, "reads": [int, ...], "lens": [int, ...]}, ...]}   (1-3 messages sent over ONE connection:
+#          getMailFrom returns an address once per message, then None); the legacy single-message form
+#          {"body", "reads", "lens"} is still accepted
 #   body   the bytes of the file returned by getMailData()
 #   reads  sizes - 1 of successive file.read() results (a file-like may return short reads); afterwards
 #          FileSender's own CHUNK_SIZE applies
@@ -41,7 +43,15 @@ def split_by(lens, bs: bytes):
     return out
 
 
-def _run(body: bytes, reads, lens):
+def _msgs(case):
+    if "msgs" in case:
+        return case["msgs"]
+    return [{"body": case["body"], "reads": case["reads"], "lens": case["lens"]}]
+
+
+def _run(msgs):
+    """-> (per message (wire, data-phase events) or None when the dialogue never reached DATA for it,
+           command lines the server saw outside the DATA phases after the first DATA, sentMail calls)"""
     from twisted.internet import defer
     from twisted.internet.testing import StringTransport
     from twisted.mail import smtp
@@ -83,17 +93,20 @@ def _run(body: bytes, reads, lens):
 
     class Client(smtp.SMTPClient):
         debug = False
-        n = 0
+        n = 0            # messages handed out so far
 
         def getMailFrom(self):
+            if self.n >= len(msgs):
+                return None
             self.n += 1
-            return b"a@example.com" if self.n == 1 else None
+            return b"a@example.com"
 
         def getMailTo(self):
             return [b"b@example.com"]
 
         def getMailData(self):
-            return ScriptedFile(body, reads)
+            m = msgs[self.n - 1]
+            return ScriptedFile(bytes.fromhex(m["body"]), m["reads"])
 
         def sentMail(self, code, resp, numOk, addresses, log):
             sent.append(f"{code}:{numOk}")
@@ -117,39 +130,56 @@ def _run(body: bytes, reads, lens):
             server.dataReceived(d)
         return bool(d)
 
-    for _ in range(40):                       # greeting, HELO, MAIL, RCPT, DATA, 354
-        a = to_client()
-        if ct.producer is not None:
+    def dialogue_until_data():
+        for _ in range(40):                   # greeting / RSET, HELO, MAIL, RCPT, DATA, 354
+            a = to_client()
+            if ct.producer is not None:
+                return not ct.value()
+            b = to_server()
+            if not a and not b:
+                return False
+        return False
+
+    per, between = [], []
+    for k, m in enumerate(msgs):
+        n0 = len(evs)
+        if not dialogue_until_data():
+            per.append(None)
+            between += evs[n0:]
             break
-        b = to_server()
-        if not a and not b:
-            break
-    if ct.producer is None or ct.value():
-        raise RuntimeError("dialogue did not reach the DATA phase")
-    n0 = len(evs)
-    while ct.producer is not None:            # the transport pulls the FileSender until it unregisters
-        ct.producer.resumeProducing()
-    wire = ct.value()
-    ct.clear()
-    for c in split_by(lens, wire):
-        if st.disconnecting:
-            break
-        server.dataReceived(c)
-    data_evs = evs[n0:]
+        if k > 0:
+            between += evs[n0:]
+        n0 = len(evs)
+        while ct.producer is not None:        # the transport pulls the FileSender until it unregisters
+            ct.producer.resumeProducing()
+        wire = ct.value()
+        ct.clear()
+        for c in split_by(m["lens"], wire):
+            if st.disconnecting:
+                break
+            server.dataReceived(c)
+        per.append((wire, evs[n0:]))
     n1 = len(evs)
     for _ in range(40):
         a = to_client()
         b = to_server()
         if not a and not b:
             break
+    between += evs[n1:]
     server.setTimeout(None)
     client.setTimeout(None)
-    return wire, data_evs, evs[n1:], sent
+    return per, between, sent
+
+
+def _show_msg(r):
+    if r is None:
+        return "w=- e=NODATA"
+    return "w=" + r[0].hex() + " e=" + " ".join(r[1])
 
 
 def impl(case) -> str:
-    wire, data_evs, after, sent = _run(bytes.fromhex(case["body"]), case["reads"], case["lens"])
-    return "w=" + wire.hex() + " e=" + " ".join(data_evs) + " a=" + " ".join(after) + " sent=" + ",".join(sent)
+    per, between, sent = _run(_msgs(case))
+    return " ; ".join(_show_msg(r) for r in per) + " a=" + " ".join(between) + " sent=" + ",".join(sent)
 
 
 # ----- the property on the observation, without the model -------------------------------------------------
@@ -184,35 +214,58 @@ def _where(body: bytes, reads):
     return "elsewhere"
 
 
-def oracle(case, obs):
-    body = bytes.fromhex(case["body"])
-    head, sent = obs.rsplit(" sent=", 1)
-    head, after = head.split(" a=", 1)
-    w, e = head[2:].split(" e=", 1)
-    evs = e.split(" ") if e else []
-    after = after.split(" ") if after else []
+def _oracle_msg(case, k, m, part):
+    """one message of the session: its own body decides what must arrive, whatever was sent before it"""
+    body = bytes.fromhex(m["body"])
     exp = expected_lines(body)
     if exp is None:
         return None
-    where = _where(body, case["reads"])
+    where = _where(body, m["reads"])
+    if k > 0:
+        where += "/message-%d-of-session" % (k + 1)
+    if part == "w=- e=NODATA":
+        return Failure(case, f"message {k + 1} was never transferred (the dialogue did not reach DATA)", "message-not-sent/" + where)
+    w, e = part[2:].split(" e=", 1)
+    evs = e.split(" ") if e else []
     cmds = [x for x in evs if x.startswith("C:")]
     if cmds:
-        return Failure(case, f"body content reached the command interpreter: {[bytes.fromhex(c[2:]) for c in cmds][:3]}",
-                       "body-line-executed-as-command/" + where)
+        return Failure(case, f"message {k + 1}: body content reached the command interpreter: "
+                             f"{[bytes.fromhex(c[2:]) for c in cmds][:3]}", "body-line-executed-as-command/" + where)
     if evs.count("EOM") != 1 or evs[-1] != "EOM":
-        return Failure(case, f"message ended {evs.count('EOM')} times / not at the terminator: {evs[-4:]}",
+        return Failure(case, f"message {k + 1} ended {evs.count('EOM')} times / not at the terminator: {evs[-4:]}",
                        "ended-not-at-terminator/" + where)
     got = [bytes.fromhex(x[2:]) for x in evs[:-1] if x.startswith("L:")]
     if len(got) != len(evs) - 1:
-        return Failure(case, f"unexpected events {evs[:6]}", "unexpected-event")
+        return Failure(case, f"message {k + 1}: unexpected events {evs[:6]}", "unexpected-event")
     if exp == "empty":
         # zero lines: the client sends CR LF . CR LF, i.e. one empty line (documented in design.d/C40.md)
         if got not in ([], [b""]):
-            return Failure(case, f"empty body delivered as {got}", "empty-body")
+            return Failure(case, f"message {k + 1}: empty body delivered as {got}", "empty-body")
     elif got != exp:
-        return Failure(case, f"server message received {got[:6]} expected {exp[:6]}", "lines-altered/" + where)
-    if after != ["C:" + b"RSET".hex(), "C:" + b"QUIT".hex()] or sent != "250:1":
-        return Failure(case, f"dialogue after the message: {after} sentMail={sent}", "dialogue-after-data")
+        return Failure(case, f"message {k + 1}: server message received {got[:6]} expected {exp[:6]}", "lines-altered/" + where)
+    return None
+
+
+def oracle(case, obs):
+    msgs = _msgs(case)
+    head, sent = obs.rsplit(" sent=", 1)
+    head, after = head.split(" a=", 1)
+    parts = head.split(" ; ")
+    after = after.split(" ") if after else []
+    for k, m in enumerate(msgs):
+        if k >= len(parts):
+            f = _oracle_msg(case, k, m, "w=- e=NODATA")
+        else:
+            f = _oracle_msg(case, k, m, parts[k])
+        if f:
+            return f
+    if all(expected_lines(bytes.fromhex(m["body"])) is not None for m in msgs):
+        hx = lambda b: "C:" + b.hex()
+        again = [hx(b"RSET"), hx(b"MAIL FROM:<a@example.com>"), hx(b"RCPT TO:<b@example.com>"), hx(b"DATA")]
+        want = again * (len(msgs) - 1) + [hx(b"RSET"), hx(b"QUIT")]
+        if after != want or sent != ",".join(["250:1"] * len(msgs)):
+            return Failure(case, f"dialogue around the messages: {[bytes.fromhex(x[2:]) for x in after]} sentMail={sent}",
+                           "dialogue-after-data")
     return None
 
 
@@ -275,6 +328,26 @@ def gen(rng, tier):
     for _ in range(120 if quick else 3000):
         body = bytes(rng.choice([0x2E, 0x2E, 0x0A, 0x0A, 0x0D, 0x0D, 0x61, 0x3A]) for _ in range(rng.randrange(0, 9)))
         cases.append({"body": body.hex(), "reads": _sizes(rng, len(body)), "lens": _sizes(rng, 2 * len(body) + 5)})
+    # sessions: 2-3 messages over one connection; earlier bodies with / without a final LF, later bodies starting with '.'
+    starts = [b".\nQUIT\n", b".foo\n", b"..\n", b".\n", b"a\n", b"Subject: s\n\n.x\n"]
+    ends = [b"abc", b"x\ny", b".", b"abc\n", b"", b"\n", b"a\n.", b"tail."]
+    for _ in range(260 if quick else 5000):
+        n = rng.choice([2, 2, 3])
+        msgs = []
+        for k in range(n):
+            r = rng.random()
+            if k < n - 1 and r < 0.6:
+                body = (_body(rng) if rng.random() < 0.5 else b"") + rng.choice(ends)
+            elif k > 0 and r < 0.8:
+                body = rng.choice(starts) + (_body(rng) if rng.random() < 0.5 else b"")
+            else:
+                body = _body(rng)
+            reads = _cuts_at_line_starts(rng, body) if rng.random() < 0.4 else _sizes(rng, len(body))
+            msgs.append({"body": body.hex(), "reads": reads, "lens": _sizes(rng, 2 * len(body) + 5)})
+        cases.append({"msgs": msgs})
+    for e in ends:                                  # every (ending, start) pair, whole reads
+        for st_ in starts:
+            cases.append({"msgs": [{"body": e.hex(), "reads": [], "lens": []}, {"body": st_.hex(), "reads": [], "lens": []}]})
     if not quick:
         # FileSender's real CHUNK_SIZE (2**14): a dot-line right at the 16384-byte boundary
         for k in (16382, 16383, 16384):
@@ -293,69 +366,97 @@ def corpus():
         {"body": b"".hex(), "reads": [], "lens": []},
         {"body": b"\n".hex(), "reads": [], "lens": [0]},
         {"body": b"no header\n".hex(), "reads": [], "lens": [3]},
+        # two messages on one connection: the first body has no final LF, the second starts with a dot-line
+        {"msgs": [{"body": b"abc".hex(), "reads": [], "lens": []}, {"body": b".\nQUIT\n".hex(), "reads": [], "lens": []}]},
+        {"msgs": [{"body": b"abc".hex(), "reads": [], "lens": []}, {"body": b".foo\n".hex(), "reads": [], "lens": []},
+                  {"body": b"x\n".hex(), "reads": [0], "lens": [1]}]},
     ]
 
 
 def to_coq(case):
-    body = bytes.fromhex(case["body"])
-    if len(body) > 3000:
-        return None
-    return (f"({coq_bytes(body)}, {coq_list([f'{n}%nat' for n in case['reads']], 'nat')}, "
-            f"{coq_list([f'{n}%nat' for n in case['lens']], 'nat')})")
+    out = []
+    for m in _msgs(case):
+        body = bytes.fromhex(m["body"])
+        if len(body) > 3000:
+            return None
+        out.append(f"({coq_bytes(body)}, {coq_list([f'{n}%nat' for n in m['reads']], 'nat')}, "
+                   f"{coq_list([f'{n}%nat' for n in m['lens']], 'nat')})")
+    return coq_list(out, "(list N * list nat * list nat)")
 
 
 def model_equal(case, impl_obs, model_obs):
     return impl_obs.split(" a=", 1)[0] == model_obs
 
 
-def shrink(case):
-    body = bytes.fromhex(case["body"])
+def _shrink_msg(m):
+    body = bytes.fromhex(m["body"])
     lines = body.split(b"\n")
     if body.endswith(b"\n"):
         lines = lines[:-1]
         for i in range(len(lines)):
             nb = b"".join(x + b"\n" for x in lines[:i] + lines[i + 1:])
-            yield {**case, "body": nb.hex()}
+            yield {**m, "body": nb.hex()}
         for i, l in enumerate(lines):
             if len(l) > 1:
                 nb = b"".join(x + b"\n" for x in lines[:i] + [l[:-1]] + lines[i + 1:])
-                yield {**case, "body": nb.hex()}
-    if case["lens"]:
-        yield {**case, "lens": []}
-    for i in range(len(case["reads"])):
-        yield {**case, "reads": case["reads"][:i] + case["reads"][i + 1:]}
+                yield {**m, "body": nb.hex()}
+    elif len(body) > 1:
+        for i in range(len(body)):
+            yield {**m, "body": (body[:i] + body[i + 1:]).hex()}
+    if m["lens"]:
+        yield {**m, "lens": []}
+    for i in range(len(m["reads"])):
+        yield {**m, "reads": m["reads"][:i] + m["reads"][i + 1:]}
+
+
+def shrink(case):
+    msgs = _msgs(case)
+    for i in range(len(msgs)):
+        if len(msgs) > 1:
+            yield {"msgs": msgs[:i] + msgs[i + 1:]}
+    for i, m in enumerate(msgs):
+        for m2 in _shrink_msg(m):
+            yield {"msgs": msgs[:i] + [m2] + msgs[i + 1:]}
 
 
 def histogram(case, obs):
-    body = bytes.fromhex(case["body"])
+    msgs = _msgs(case)
+    k = f"{len(msgs)}msg "
+    m = msgs[-1]
+    body = bytes.fromhex(m["body"])
     e = expected_lines(body)
+    if len(msgs) > 1:
+        prev = bytes.fromhex(msgs[-2]["body"])
+        k += ("prev-unterminated " if prev and not prev.endswith(b"\n") else "") + ("dot-first " if body[:1] == b"." else "")
     if e is None:
-        return "outside-property (CR / unterminated)"
+        return k + "outside-property (CR / unterminated)"
     if e == "empty":
-        return "empty body"
-    return _where(body, case["reads"]) + (" dotlines" if any(l[:1] == b"." for l in body.split(b"\n")) else " plain")
+        return k + "empty body"
+    return k + _where(body, m["reads"]) + (" dotlines" if any(l[:1] == b"." for l in body.split(b"\n")) else " plain")
 
 
 SPEC = Spec(
     pid="C40",
     gen=gen, impl=impl, oracle=oracle, corpus=corpus, shrink=shrink,
     coq_header="From C40 Require Import Model Run.",
-    coq_fn="run_show",
+    coq_fn="run_session",
     to_coq=to_coq,
     model_equal=model_equal,
-    nontrivial=lambda c, o: "2e" in c["body"],
+    nontrivial=lambda c, o: any("2e" in m["body"] for m in _msgs(c)),
     histogram=histogram,
     rule="bodies of 0-6 lines from a pool rich in dot-lines ('.', '..', '.a'), empty lines, header-like and "
          "command-like lines; file-read chunking: whole / byte-wise / random / cuts placed exactly at line starts; network "
          "segmentation whole / byte-wise / random; every body of <= 3 lines over {'.', '', 'a', '.a'} (thorough adds "
          "'..', 'a:') with every single read-cut position; a malformed stream (CR inside, unterminated last line) for the "
-         "correspondence only; thorough adds dot-lines at FileSender's real 16384-byte boundary; non-trivial = the body "
-         "contains a '.'",
+         "correspondence only; sessions of 2-3 messages over one connection (earlier bodies with and without a final LF, "
+         "later bodies starting with dot-lines; every ending x start pair); thorough adds dot-lines at FileSender's real "
+         "16384-byte boundary; non-trivial = a body contains a '.'",
     trusted=["hand-written model coq/C40/Model.v (tied by this correspondence run only)",
              "bytes.replace semantics (one-byte pattern = flat_map; 3-byte pattern left-to-right non-overlapping) as written "
              "in Model.v, validated by the wire comparison",
              "LineOnlyReceiver framing modelled byte-wise on CR LF without its MAX_LENGTH check (that is C16)"],
     assumptions=["transformChunk modelled as repaired by fixes/C40-dot-stuffing-across-chunks.patch",
-                 "message lines shorter than LineOnlyReceiver.MAX_LENGTH (16384)"],
+                 "message lines shorter than LineOnlyReceiver.MAX_LENGTH (16384)",
+                 "every message of a session goes to one recipient that accepts it"],
     case_timeout=20.0,
 )
